@@ -42,6 +42,8 @@ DEFINED = ["RowM", "RowN"]
 INDEX_FLAT = ["type", "sheet_name", "new_name", "data_model", "operation.type", "operation.expression", "operation.order", "data_sheet"]
 INDEX_PACKED = ["type", "sheet_name", "new_name", "data_model", "operation", "data_sheet"]
 TEMPLATE = [["row_id", "type", "from", "message_text"], ["", "send_message", "start", "v{{x}}n{{name}}"]]
+TEMPLATE0 = [["row_id", "type", "from", "message_text"], ["", "send_message", "start", "hello"]]
+NOISE_FLOWS = ("tpl0", "noiseflow")
 
 FILTER_EXPRS = ["x > 2", "x >= 3", "name == 'a'", "x % 2 == 0", "len(name) > 1", "name in ['a', 'b']",
                 "x == 3 or name == 'b'", "not name", "True", "False", "ID != 'r2'", "name.lower() == 'a'",
@@ -155,6 +157,298 @@ def gen_case(rng, malformed):
     return {"sheets": sheets, "index": index, "packed": rng.random() < 0.3}
 
 
+
+# ------------------------------------------------------------------ histories (strengthening after wave 3)
+def reads_of(row):
+    """the sheet names an index row reads: all for a concat, the first one for filter / sort"""
+    return list(row["names"]) if row["op"] in ("", "concat") else list(row["names"][:1])
+
+
+def target_of(row):
+    return row["new"] or (row["names"][0] if row["names"] else "")
+
+
+def descriptor(row):
+    """what a result memo could be keyed by: everything of the row but the name it registers under"""
+    return (tuple(reads_of(row)), row["op"] or "concat", row["expr"], row["order"].lower())
+
+
+def gen_history(rng, short=False):
+    """A chain built around REPETITION: a few operation descriptors (op, expression, order) are
+    applied again and again to a few focus names while, in between, other rows change what is
+    registered under these names - for the first time (plain / implicit concat without new_name,
+    concat / filter / sort with new_name = the source or another focus name) or again (overwrite).
+    Optional noise rows, nested index or two workbooks.  The generator tracks models only to keep
+    most chains valid; expectations never use the tracking."""
+    names = FRESH[:rng.choice([2, 2, 3, 3, 4])]
+    sheets = {n: gen_sheet(rng) for n in names}
+    for sh in sheets.values():          # sources worth filtering: mostly 2+ rows
+        if len(sh["rows"]) < 2 and rng.random() < 0.7:
+            sh["rows"] = gen_sheet(rng)["rows"] or [["r1", 3, "a"], ["r2", 1, "b"]]
+    dm_main = rng.choice(["RowM", "RowM", "RowM", "RowN"])
+    other = "RowN" if dm_main == "RowM" else "RowM"
+    descs = []
+    for _ in range(rng.choice([1, 2, 2, 3])):
+        if rng.random() < 0.5:
+            descs.append(("filter", rng.choice(FILTER_EXPRS), ""))
+        else:
+            descs.append(("sort", rng.choice(SORT_EXPRS), rng.choice(ORDERS)))
+    focus = rng.sample(names, rng.choice([1, 1, 2]))
+    n_ops = rng.choice([2, 3, 3, 4]) if short else rng.choice([3, 4, 5, 6, 6, 7, 8])
+    reg = OrderedDict()     # name -> tracked model
+    index = []
+    registered_start = rng.random() < 0.3   # the focus names are registered before anything is derived from them
+    for k in range(n_ops):
+        row = {"names": [], "new": "", "dm": dm_main, "op": "", "expr": "", "order": ""}
+        derived_names = [n for n in reg if n not in names]
+        u = rng.random()
+        if registered_start and k < len(focus):
+            row.update(names=[focus[k]])
+            model = dm_main
+        elif u < 0.5 or k == 0:
+            # apply one of the recurring descriptors, mostly to a focus name
+            op, expr, order = rng.choice(descs)
+            src = rng.choice(focus * 3 + derived_names[:2] + names[:1])
+            row.update(names=[src], op=op, expr=expr, order=order)
+            if src in reg:
+                row["dm"] = rng.choice([dm_main, dm_main, "", other, "Bogus"])   # ignored for a registered source
+            elif rng.random() < 0.12:
+                row["dm"] = rng.choice(["", other])
+            v = rng.random()
+            row["new"] = (rng.choice(DERIVED) if v < 0.7 else src if v < 0.8 else rng.choice(focus) if v < 0.9
+                          else rng.choice(derived_names or DERIVED))
+            model = reg[src] if src in reg else (row["dm"] or ("inf", k))
+        else:
+            # change what is registered under a focus name (or register it for the first time)
+            tgt = rng.choice(focus)
+            how = rng.choice(["plain1", "implicit", "concat-self", "concat-self", "concat-other", "derive-other", "derive-self"])
+            ok = [n for n in list(reg) + names if reg.get(n, dm_main) == dm_main]
+            if how == "plain1":
+                row.update(names=[tgt])                      # registers the sheet under its own name
+                if tgt in reg:
+                    row["dm"] = rng.choice([dm_main, ""])
+            elif how == "implicit":
+                row.update(names=[tgt] + [rng.choice(ok) for _ in range(rng.choice([1, 2]))])
+            elif how == "concat-self":
+                srcs = [tgt] + [rng.choice(ok) for _ in range(rng.choice([1, 1, 2]))]
+                if rng.random() < 0.4:
+                    srcs.reverse()
+                row.update(names=srcs, new=tgt, op="concat")
+            elif how == "concat-other":
+                row.update(names=[rng.choice(ok) for _ in range(rng.choice([1, 2, 3]))], new=tgt, op="concat")
+            else:
+                op, expr, order = rng.choice(descs) if rng.random() < 0.5 else rng.choice(
+                    [("filter", rng.choice(FILTER_EXPRS), ""), ("sort", rng.choice(SORT_EXPRS), rng.choice(ORDERS))])
+                src = tgt if how == "derive-self" else rng.choice([n for n in list(reg) + names if n != tgt] or [tgt])
+                row.update(names=[src], new=tgt, op=op, expr=expr, order=order)
+            if row["op"] in ("", "concat"):
+                if any(reg.get(n, dm_main) != dm_main for n in row["names"]):
+                    row["names"] = [n for n in row["names"] if reg.get(n, dm_main) == dm_main] or [names[-1]]
+                model = dm_main
+                if len(row["names"]) == 1 and row["names"][0] in reg:
+                    model = reg[row["names"][0]]
+            else:
+                model = reg[row["names"][0]] if row["names"][0] in reg else (row["dm"] or ("inf", k))
+        index.append(row)
+        reg[target_of(row)] = model
+    case = {"sheets": sheets, "index": index, "packed": rng.random() < 0.25, "hist": True}
+    # rows that are not applied data_sheet rows
+    noise = []
+    if rng.random() < 0.4:
+        known = [target_of(r) for r in index] + names
+        for _ in range(rng.choice([1, 1, 2, 3])):
+            pos = rng.randrange(len(index) + 1)
+            kind = rng.choice(["ignore_row", "ignore_row", "draft", "draft", "template_definition", "create_flow"])
+            if kind == "ignore_row":
+                arg = rng.choice(known + ["tpl", "tpl0", "noiseflow"])
+            elif kind == "draft":
+                arg = dict(rng.choice(index))
+                arg["new"] = rng.choice(focus + [arg["new"] or "d1"])
+                arg["names"] = list(arg["names"])
+            elif kind == "create_flow":
+                arg = rng.choice(["", "noiseflow"])
+            else:
+                arg = ""
+            noise.append([pos, kind, arg])
+        case["noise"] = noise
+    u = rng.random()
+    if u < 0.2 and len(index) >= 2:
+        a = rng.randrange(0, len(index))
+        b = rng.randrange(a + 1, len(index) + 1)
+        case["layout"] = {"kind": "nested", "cut": [a, b]}
+    elif u < 0.4 and len(index) >= 2:
+        case["layout"] = {"kind": "books", "cut": rng.randrange(1, len(index)),
+                          "where": {n: rng.choice([1, 2, 2, "both"]) for n in names}}
+    return case
+
+
+def history_slice(case, k):
+    """indices of the rows step k depends on (backward slice through targets and reads), ending with k"""
+    idx = case["index"]
+    needed = set(reads_of(idx[k]))
+    kept = [k]
+    for j in range(k - 1, -1, -1):
+        t = target_of(idx[j])
+        if t in needed:
+            kept.append(j)
+            needed.discard(t)
+            needed |= set(reads_of(idx[j]))
+    return sorted(kept)
+
+
+def repeat_classes(case, states):
+    """for every step that repeats the descriptor of an earlier step: what happened to the names it
+    reads in between, seen on the implementation's registries (before = registry the step saw)"""
+    out = []
+    idx = case["index"]
+    before = [OrderedDict()] + [s[1] for s in states if s[0] == "ok"]
+    for k in range(min(len(idx), len(before))):
+        for j in range(k):
+            if descriptor(idx[j]) != descriptor(idx[k]):
+                continue
+            cls = "unchanged"
+            for n in reads_of(idx[k]):
+                if n not in before[j] and n in before[k]:
+                    cls = "first-registration"
+                    break
+                if n in before[j] and before[j][n] != before[k].get(n):
+                    cls = "re-registered-different"
+            out.append(cls)
+            break
+    return out
+
+
+def impl_read_sequence(scr, case, sheet):
+    """ONE parser, after the whole index: registry, export, flows from `sheet`, export again,
+    registry again (row by row through get_data_sheet_row)"""
+    from rpft.converters import get_content_index_parser
+
+    d, inputs = scr.render(case, len(case["index"]), flow_from=sheet)
+
+    def snap(p):
+        return OrderedDict((name, [(i, r.dict()) for i, r in p.get_data_sheet_rows(name).items()]) for name in p.data_sheets)
+
+    def go():
+        p = get_content_index_parser(inputs, "csv", MODNAME, [])
+        o1 = snap(p)
+        e1 = json.loads(json.dumps(p.data_sheets_to_dict()))
+        out = p.parse_all().render()
+        fl = [(f["name"], f["nodes"][0]["actions"][0]["text"]) for f in out["flows"] if f["name"] not in NOISE_FLOWS]
+        e2 = json.loads(json.dumps(p.data_sheets_to_dict()))
+        o2 = OrderedDict((name, [(i, p.get_data_sheet_row(name, i).dict()) for i in list(p.get_data_sheet_rows(name))])
+                         for name in p.data_sheets)
+        return o1, e1, fl, e2, o2
+    try:
+        return run_cli_mode(go)
+    finally:
+        shutil.rmtree(d, ignore_errors=True)
+
+
+def history_oracles(scr, case, states):
+    """(i) minimal history: the sheet a step registers in the long chain equals the sheet the same
+    row registers on a fresh parser that ran only the rows this step depends on;
+    (ii) reads do not disturb: one parser, registry / export / flows / export / registry."""
+    problems = []
+    extra = {"slice_runs": 0, "read_sequences": 0}
+    idx = case["index"]
+    for k in range(len(idx)):
+        if k >= len(states) or states[k][0] != "ok":
+            break
+        if not idx[k]["names"]:
+            continue
+        kept = history_slice(case, k)
+        plain = not case.get("noise") and not case.get("layout")
+        if len(kept) == k + 1 and plain:
+            continue
+        sub = {"sheets": case["sheets"], "index": [idx[j] for j in kept], "packed": False}
+        r = impl_registry(scr, sub, len(kept))
+        extra["slice_runs"] += 1
+        tgt = target_of(idx[k])
+        got = states[k][1].get(tgt)
+        def show(rows):
+            return "nothing" if rows is None else f"ids {ids(rows)}" + ("" if rows == got or got is None or ids(rows) != ids(got) else " with other row contents")
+        if r[0] != "ok":
+            problems.append(("history-dependent", f"step {k}: registers {show(got)} under {tgt!r} in the chain, but the same row fails "
+                             f"on a fresh parser that ran only the rows it depends on {kept}: {r[1:]}"))
+        elif r[1].get(tgt) != got:
+            problems.append(("history-dependent", f"step {k}: the chain registers {show(got)} under {tgt!r}; a fresh parser that ran only "
+                             f"the rows this step depends on {kept} (plain single index) registers {show(r[1].get(tgt))}"))
+    if states and len(states) == len(idx) and all(s[0] == "ok" for s in states):
+        final = states[-1][1]
+        tgt = target_of(idx[-1])
+        if tgt in final and tgt != "tpl":
+            rs = impl_read_sequence(scr, case, tgt)
+            extra["read_sequences"] += 1
+            if rs[0] != "ok":
+                problems.append(("read-sequence-error", f"registry/export/parse_all/export on one parser failed: {rs[1:]}"))
+            else:
+                o1, e1, fl, e2, o2 = rs[1]
+                want_rows = {name: [dd for _, dd in rows] for name, rows in final.items()}
+                if o1 != final or o2 != final:
+                    problems.append(("reads-disturb-registry", "registry of one parser before / after export and parse_all differs from "
+                                     f"the registry after the index: {[n for n in final if o1.get(n) != final[n] or o2.get(n) != final[n]]}"))
+                for what, e in (("first", e1), ("second", e2)):
+                    got = {name: shd.get("rows") for name, shd in e.get("sheets", {}).items()}
+                    if got != want_rows:
+                        problems.append(("export-rows", f"{what} data_sheets_to_dict of one parser lists {got}, registered {want_rows}"))
+                want = [(f"tpl - {i}", f"v{dd['x']}n{dd['name']}") for i, dd in final[tgt]]
+                if fl != want:
+                    problems.append(("flows-from-derived", f"flows instantiated from {tgt!r} on the same parser: {fl} expected {want}"))
+    return problems, extra
+
+
+
+def gen_session(rng):
+    """2..4 workbooks for ONE process: a short history and variants of it that keep the sheet names
+    and most operations - other data under the same names, the same workbook again, another index
+    over the same data, a workbook whose index fails half way"""
+    import copy
+
+    cases = [gen_history(rng, short=True)]
+    for _ in range(rng.choice([1, 2, 2, 3])):
+        c = copy.deepcopy(rng.choice(cases))
+        kind = rng.choice(["newdata", "newdata", "newdata", "same", "newindex", "broken"])
+        if kind == "newdata":
+            for n in c["sheets"]:
+                if rng.random() < 0.8:
+                    c["sheets"][n] = gen_sheet(rng)
+        elif kind == "newindex":
+            h = gen_history(rng, short=True)
+            h["sheets"].update({n: sh for n, sh in c["sheets"].items() if n in h["sheets"]})
+            c = h
+        elif kind == "broken":
+            j = rng.randrange(len(c["index"]))
+            row = c["index"][j]
+            if row["op"] in ("filter", "sort") and rng.random() < 0.5:
+                row["expr"] = rng.choice(BAD_EXPRS)
+            else:
+                row["names"] = row["names"][:rng.randrange(len(row["names"]))] + ["nosuch"]
+        cases.append(c)
+    return cases
+
+
+def session_problems(scr, cases):
+    """problems of every workbook of a session, run one after the other in THIS process"""
+    return [[list(p) for p in check_case(scr, c)[2]] for c in cases]
+
+
+def fresh_process_problems(cases):
+    """session_problems in a fresh interpreter (None if that could not be done)"""
+    import subprocess
+
+    fd, path = tempfile.mkstemp(prefix="c11_session_", suffix=".json")
+    try:
+        with os.fdopen(fd, "w") as f:
+            json.dump(cases, f)
+        r = subprocess.run([sys.executable, os.path.abspath(__file__), "--session", path], stdout=subprocess.PIPE,
+                           stderr=subprocess.DEVNULL, timeout=300, env=dict(os.environ))
+        return json.loads(r.stdout.decode().strip().splitlines()[-1])
+    except Exception:
+        return None
+    finally:
+        os.unlink(path)
+
+
 # ------------------------------------------------------------------ implementation side
 class Scratch:
     """scratch area holding the models module and one folder per rendered case"""
@@ -175,48 +469,126 @@ class Scratch:
         shutil.rmtree(self.base, ignore_errors=True)
 
     def render(self, case, upto, flow_from=None):
+        """Writes the workbook(s) of the first `upto` data_sheet rows of `case`; returns
+        (root dir to remove, list of input folders).  Optional parts of a case:
+          noise  = [[pos, kind, arg]]: an index row that is not an applied data_sheet row, placed
+                   before data row `pos` (ignore_row / draft data_sheet row / template_definition /
+                   create_flow of a constant template);
+          layout = {"kind": "nested", "cut": [a, b]}: data rows a..b-1 live in a child index
+                   reached through a content_index row of the parent;
+                   {"kind": "books", "cut": a, "where": {sheet: 1|2|"both"}}: two workbooks, each
+                   with its own content_index (rows < a / rows >= a); a sheet placed in "both"
+                   has a decoy copy in the first workbook (the last workbook's copy is the active one)."""
         self.n += 1
-        d = os.path.join(self.base, f"case{self.n}")
-        os.mkdir(d)
-        with open(os.path.join(d, "content_index.csv"), "w", newline="") as f:
-            w = csv.writer(f)
-            if case.get("packed"):
-                w.writerow(INDEX_PACKED)
-                for r in case["index"][:upto]:
-                    parts = [r["op"]] if r["op"] else []
-                    if r["op"] and r["expr"]:
-                        parts.append("expression;" + r["expr"])
-                    if r["op"] and r["order"]:
-                        parts.append("order;" + r["order"])
-                    w.writerow(["data_sheet", ";".join(r["names"]), r["new"], r["dm"], "|".join(parts), ""])
-                if flow_from:
-                    w.writerow(["create_flow", "tpl", "", "", "", flow_from])
+        root = os.path.join(self.base, f"case{self.n}")
+        os.mkdir(root)
+        packed = bool(case.get("packed"))
+        noise = case.get("noise") or []
+        layout = case.get("layout") or {}
+        n_all = len(case["index"])
+        headers = list(INDEX_PACKED if packed else INDEX_FLAT) + (["status"] if noise else [])
+
+        def cells(r, status=""):
+            d = {"type": "data_sheet", "sheet_name": ";".join(r["names"]), "new_name": r["new"], "data_model": r["dm"]}
+            if packed:
+                parts = [r["op"]] if r["op"] else []
+                if r["op"] and r["expr"]:
+                    parts.append("expression;" + r["expr"])
+                if r["op"] and r["order"]:
+                    parts.append("order;" + r["order"])
+                d["operation"] = "|".join(parts)
             else:
-                w.writerow(INDEX_FLAT)
-                for r in case["index"][:upto]:
-                    w.writerow(["data_sheet", ";".join(r["names"]), r["new"], r["dm"], r["op"], r["expr"], r["order"], ""])
-                if flow_from:
-                    w.writerow(["create_flow", "tpl", "", "", "", "", "", flow_from])
-        for name, sh in case["sheets"].items():
-            with open(os.path.join(d, name + ".csv"), "w", newline="") as f:
+                d.update({"operation.type": r["op"], "operation.expression": r["expr"], "operation.order": r["order"]})
+            if status:
+                d["status"] = status
+            return d
+
+        # the linear sequence of index rows: (position, cells)
+        entries = []
+        for k in range(upto + 1):
+            for pos, kind, arg in noise:
+                if pos != k or (k == upto and upto != n_all):
+                    continue
+                if kind == "ignore_row":
+                    entries.append((k, {"type": "ignore_row", "sheet_name": arg}))
+                elif kind == "draft":
+                    entries.append((k, cells(arg, "draft")))
+                elif kind == "template_definition":
+                    entries.append((k, {"type": "template_definition", "sheet_name": "tpl0"}))
+                elif kind == "create_flow":
+                    entries.append((k, {"type": "create_flow", "sheet_name": "tpl0", "new_name": arg or ""}))
+            if k < upto:
+                entries.append((k, cells(case["index"][k])))
+        if flow_from:
+            entries.append((n_all, {"type": "create_flow", "sheet_name": "tpl", "data_sheet": flow_from}))
+
+        def write_index(folder, name, ents):
+            with open(os.path.join(folder, name + ".csv"), "w", newline="") as f:
+                w = csv.writer(f)
+                w.writerow(headers)
+                for e in ents:
+                    w.writerow([e.get(h, "") for h in headers])
+
+        def write_sheet(folder, name, sh, rows=None):
+            with open(os.path.join(folder, name + ".csv"), "w", newline="") as f:
                 w = csv.writer(f)
                 w.writerow(["ID", "x:int" if sh["annotated"] else "x", "name"])
-                for r in sh["rows"]:
+                for r in (sh["rows"] if rows is None else rows):
                     w.writerow(r)
+
+        if layout.get("kind") == "books":
+            wb1, wb2 = os.path.join(root, "wb1"), os.path.join(root, "wb2")
+            os.mkdir(wb1)
+            os.mkdir(wb2)
+            inputs = [wb1, wb2]
+            a = layout["cut"]
+            first = [e for pos, e in entries if pos < a]
+            second = [e for pos, e in entries if pos >= a]
+            write_index(wb1, "content_index", first)
+            if second:
+                write_index(wb2, "content_index", second)
+            for name, sh in case["sheets"].items():
+                where = layout.get("where", {}).get(name, 2)
+                if where == "both":
+                    # decoy: other rows under the same name in the earlier workbook
+                    write_sheet(wb1, name, sh, [[r[0], r[1] + 7, r[2] + "z"] for r in reversed(sh["rows"])] + [["r9", 9, "decoy"]])
+                    write_sheet(wb2, name, sh)
+                else:
+                    write_sheet(wb1 if where == 1 else wb2, name, sh)
+            last = wb2
+        else:
+            inputs = [root]
+            last = root
+            if layout.get("kind") == "nested":
+                a, b = layout["cut"]
+                inner = [e for pos, e in entries if a <= pos < b]
+                outer = [e for pos, e in entries if pos < a]
+                if inner:
+                    outer.append({"type": "content_index", "sheet_name": "sub_index"})
+                    write_index(root, "sub_index", inner)
+                outer += [e for pos, e in entries if pos >= b]
+                write_index(root, "content_index", outer)
+            else:
+                write_index(root, "content_index", [e for _, e in entries])
+            for name, sh in case["sheets"].items():
+                write_sheet(root, name, sh)
         if flow_from:
-            with open(os.path.join(d, "tpl.csv"), "w", newline="") as f:
+            with open(os.path.join(last, "tpl.csv"), "w", newline="") as f:
                 csv.writer(f).writerows(TEMPLATE)
-        return d
+        if any(kind in ("template_definition", "create_flow") for _, kind, _ in noise):
+            with open(os.path.join(last, "tpl0.csv"), "w", newline="") as f:
+                csv.writer(f).writerows(TEMPLATE0)
+        return root, inputs
 
 
 def impl_registry(scr, case, upto):
     """('ok', {name: [(id, dict)]}) or ('err', kind, msg) for the first `upto` index rows"""
     from rpft.converters import get_content_index_parser
 
-    d = scr.render(case, upto)
+    d, inputs = scr.render(case, upto)
 
     def go():
-        p = get_content_index_parser([d], "csv", MODNAME, [])
+        p = get_content_index_parser(inputs, "csv", MODNAME, [])
         # observed through the public accessor and the registry's names
         return OrderedDict((name, [(i, r.dict()) for i, r in p.get_data_sheet_rows(name).items()])
                            for name in p.data_sheets)
@@ -229,11 +601,11 @@ def impl_registry(scr, case, upto):
 def impl_saved(scr, case):
     from rpft.converters import save_data_sheets
 
-    d = scr.render(case, len(case["index"]))
+    d, inputs = scr.render(case, len(case["index"]))
     out = os.path.join(d, "out.json")
 
     def go():
-        ret = save_data_sheets([d], out, "csv", data_models=MODNAME)
+        ret = save_data_sheets(inputs, out, "csv", data_models=MODNAME)
         with open(out) as f:
             disk = json.load(f)
         return ret, disk
@@ -247,11 +619,12 @@ def impl_flows(scr, case, sheet):
     """(flow name, message text) of the flows create_flows instantiates from `sheet`, in output order"""
     from rpft.converters import create_flows
 
-    d = scr.render(case, len(case["index"]), flow_from=sheet)
+    d, inputs = scr.render(case, len(case["index"]), flow_from=sheet)
 
     def go():
-        out = create_flows([d], None, "csv", data_models=MODNAME)
-        return [(f["name"], f["nodes"][0]["actions"][0]["text"]) for f in out["flows"]]
+        out = create_flows(inputs, None, "csv", data_models=MODNAME)
+        return [(f["name"], f["nodes"][0]["actions"][0]["text"]) for f in out["flows"]
+                if not (case.get("noise") and f["name"] in NOISE_FLOWS)]
     try:
         return run_cli_mode(go)
     finally:
@@ -510,7 +883,15 @@ def check_case(scr, case):
                 problems.append(("flows-error", f"create_flows over sheet {tgt!r} failed: {fl[1:]}"))
             elif fl[1] != want:
                 problems.append(("flows-from-derived", f"flows instantiated from {tgt!r}: {fl[1]} expected {want}"))
+    if case.get("hist"):
+        more, extra = history_oracles(scr, case, states)
+        problems += more
+        for key, n in extra.items():
+            HIST_STATS[key] = HIST_STATS.get(key, 0) + n
     return states, saved, problems
+
+
+HIST_STATS = {}
 
 
 def diverge(mproj, iproj):
@@ -543,10 +924,27 @@ def shrink(case, still_fails, budget=120):
     while progress and spent < budget:
         progress = False
         cands = []
+        if cur.get("layout"):
+            c = copy.deepcopy(cur)
+            c["layout"] = None
+            cands.append(c)
+        for i in range(len(cur.get("noise") or [])):
+            c = copy.deepcopy(cur)
+            del c["noise"][i]
+            cands.append(c)
         for i in reversed(range(len(cur["index"]))):
             if len(cur["index"]) > 1:
                 c = copy.deepcopy(cur)
                 del c["index"][i]
+                # positions of noise rows and layout cuts follow the deleted row
+                for nz in c.get("noise") or []:
+                    if nz[0] > i:
+                        nz[0] -= 1
+                lay = c.get("layout") or {}
+                if lay.get("kind") == "nested":
+                    lay["cut"] = [x - 1 if x > i else x for x in lay["cut"]]
+                elif lay.get("kind") == "books":
+                    lay["cut"] = max(1, lay["cut"] - 1) if lay["cut"] > i else lay["cut"]
                 cands.append(c)
         used = {n for r in cur["index"] for n in r["names"]}
         for n in list(cur["sheets"]):
@@ -702,70 +1100,157 @@ def run(ctx):
     dist = {"chains": 0, "malformed_stream": 0, "chains_with_error": 0, "steps_run": 0, "ops": {}, "chain_len": {},
             "rows_per_source": {}, "features": {}, "model_err_codes": {}, "packed_layout": 0, "unsupported_key": 0,
             "impl_accepts_what_model_rejects": 0}
+    hist = {"chains": 0, "chains_with_error": 0, "steps_run": 0, "chain_len": {}, "ops": {}, "layout": {}, "noise_rows": {},
+            "features": {}, "repeated_descriptor_steps": {}, "chains_with_repeat": 0,
+            "chains_repeat_after_first_registration": 0, "sessions": 0, "session_cases": {}, "session_cases_with_error": 0}
+    HIST_STATS.clear()
+
+    process_log = []    # the last workbooks this process parsed (all streams)
+    proc_keys = set()   # failure classes that turned out to need the process history
+
+    def report_process_history(case, key, text, session):
+        """`case` fails here but not alone in a fresh interpreter: find the earlier workbooks it takes"""
+        if shrunk.get("process-history", 0) >= 2:
+            v.failing_input("process-history", text, dict(fn="session", cases=[case]))
+            return
+        shrunk["process-history"] = shrunk.get("process-history", 0) + 1
+
+        def fails(cand):
+            r = fresh_process_problems(cand)
+            return bool(r) and bool(r[-1])
+        for cand in ([session] if session else []) + [process_log + [case]]:
+            if len(cand) < 2 or not fails(cand):
+                continue
+            pre, budget, n = cand[:-1], 14, 2
+            while pre and budget > 0:
+                chunk = max(1, len(pre) // n)
+                for at in range(0, len(pre), chunk):
+                    trial = pre[:at] + pre[at + chunk:]
+                    budget -= 1
+                    if fails(trial + [case]):
+                        pre = trial
+                        n = max(2, n - 1)
+                        break
+                    if budget <= 0:
+                        break
+                else:
+                    if chunk == 1:
+                        break
+                    n = min(len(pre), n * 2)
+            v.failing_input("process-history", f"workbook {len(pre) + 1} of {len(pre) + 1} parsed one after the other in ONE process: {text}; "
+                            "the same workbook alone in a fresh process is fine", dict(fn="session", cases=pre + [case]))
+            return
+        v.failing_input("process-history", f"{text}; the same workbook alone in a fresh process is fine, and so are the last "
+                        f"{len(process_log)} workbooks of this run followed by it: the replay does not reproduce it",
+                        dict(fn="session", cases=(session or [case])))
+
+    def one(case, d, malformed=False, session=None):
+        """one chain: implementation on every prefix + oracles, then the correspondence with the model"""
+        d["chains"] += 1
+        d["chain_len"][len(case["index"])] = d["chain_len"].get(len(case["index"]), 0) + 1
+        for r in case["index"]:
+            d["ops"][r["op"] or "(none)"] = d["ops"].get(r["op"] or "(none)", 0) + 1
+        if d is dist:
+            d["malformed_stream"] += malformed
+            d["packed_layout"] += bool(case["packed"])
+            for sh in case["sheets"].values():
+                d["rows_per_source"][len(sh["rows"])] = d["rows_per_source"].get(len(sh["rows"]), 0) + 1
+        states, saved, problems = check_case(scr, case)
+        d["steps_run"] += len(states)
+        v.coverage["evaluations"] += 1
+        if any(s[0] != "ok" for s in states):
+            d["chains_with_error"] += 1
+        fs = features(case, states)
+        for f in fs:
+            d["features"][f] = d["features"].get(f, 0) + 1
+        if d is hist:
+            lay = (case.get("layout") or {}).get("kind", "single")
+            d["layout"][lay] = d["layout"].get(lay, 0) + 1
+            for _, kind, _ in case.get("noise") or []:
+                d["noise_rows"][kind] = d["noise_rows"].get(kind, 0) + 1
+            rc = repeat_classes(case, states)
+            for c in rc:
+                d["repeated_descriptor_steps"][c] = d["repeated_descriptor_steps"].get(c, 0) + 1
+            d["chains_with_repeat"] += bool(rc)
+            d["chains_repeat_after_first_registration"] += "first-registration" in rc
+            if rc:
+                fs = fs | {"repeat"}
+        if fs - {"error"}:
+            nontrivial.add(json.dumps(case, sort_keys=True))
+        if len(fs) >= 3 and sum(1 for c in samples if bool(c.get("hist")) == (d is hist)) < 2:
+            samples.append(case)
+        for key, text in problems[:3]:
+            shrunk[key] = shrunk.get(key, 0) + 1
+            small = case
+            if shrunk[key] <= 2:
+                # is it this workbook, or what the process parsed before it?  ask a fresh interpreter
+                alone = fresh_process_problems([case])
+                if alone is not None and not alone[-1]:
+                    proc_keys.add(key)
+                    report_process_history(case, key, text, session)
+                    continue
+                small = shrink(case, lambda c, key=key: any(k == key for k, _ in check_case(scr, c)[2]))
+                text = next((t for k, t in check_case(scr, small)[2] if k == key), text)
+            elif key in proc_keys:
+                # same class as a failure that took the process history: counted there (not triaged again)
+                v.failing_input("process-history", text, dict(fn="session", cases=(session or [case])))
+                continue
+            v.failing_input(key, text, dict(fn="chain", case=small))
+        process_log.append(case)
+        del process_log[:-80]
+        # ---- correspondence with the extracted model
+        if m:
+            rq, tok, supported = model_request(case)
+            if not supported:
+                dist["unsupported_key"] += 1
+                return problems
+            ms = dec_model_scan(m.ask(rq), tok)
+            for s in ms:
+                if s[0] == "err":
+                    dist["model_err_codes"][s[1]] = dist["model_err_codes"].get(s[1], 0) + 1
+            mproj = [("ok", dict(s[1])) if s[0] == "ok" else ("err",) for s in ms]
+            iproj = [("ok", dict(s[1])) if s[0] == "ok" else ("err",) for s in states]
+            dv = diverge(mproj, iproj)
+            if dv and dv[0] == "lenient":
+                # the implementation accepts a row the model rejects: the property does not say
+                # when an operation must be refused (that is C15), so this is recorded, not reported
+                dist["impl_accepts_what_model_rejects"] += 1
+            elif dv:
+                small = case
+                if len(ctx.disagreements) < 3:
+                    small = shrink(case, lambda c: (lambda p: (diverge(p[0], p[1]) or ("",))[0] == "disagree")(projections(c)))
+                    mproj, iproj, states = projections(small)
+                    dv = diverge(mproj, iproj) or dv
+                k = dv[1]
+                ctx.disagree(f"registry after step {k} (ordered ids and row dicts of every registered sheet)",
+                             small, repr(mproj[k] if k < len(mproj) else None),
+                             repr(states[k] if k < len(states) else None))
+            if not dv and saved is not None and saved[0] == "ok":
+                out = parse_sexp(m.ask(model_request(case, fn=2)[0]))
+                want = {dec_str(nm): [tok[t] for t in ts] for nm, ts in out[1]} if out[0] == 0 else None
+                got = {nm: sh.get("rows") for nm, sh in saved[1][0].get("sheets", {}).items()}
+                if want != got:
+                    ctx.disagree("save_data_sheets output vs model data_sheets_to_dict", case, repr(want), repr(got))
+        return problems
+
     try:
+        # ---- process histories first (the process has run nothing of the implementation yet): several
+        # workbooks with the same sheet names / operations, one after the other in this process
+        for n in range((600 if thorough else 25) * ctx.scale):
+            cases = gen_session(rng)
+            hist["sessions"] += 1
+            hist["session_cases"][len(cases)] = hist["session_cases"].get(len(cases), 0) + 1
+            for i, case in enumerate(cases):
+                before = hist["chains_with_error"]
+                one(case, hist, session=cases[:i + 1] if i else None)
+                hist["session_cases_with_error"] += hist["chains_with_error"] - before
+        # ---- random chains
         for n in range(n_cases):
             malformed = rng.random() < 0.15
-            case = gen_case(rng, malformed)
-            dist["chains"] += 1
-            dist["malformed_stream"] += malformed
-            dist["packed_layout"] += bool(case["packed"])
-            dist["chain_len"][len(case["index"])] = dist["chain_len"].get(len(case["index"]), 0) + 1
-            for sh in case["sheets"].values():
-                dist["rows_per_source"][len(sh["rows"])] = dist["rows_per_source"].get(len(sh["rows"]), 0) + 1
-            for r in case["index"]:
-                dist["ops"][r["op"] or "(none)"] = dist["ops"].get(r["op"] or "(none)", 0) + 1
-            states, saved, problems = check_case(scr, case)
-            dist["steps_run"] += len(states)
-            v.coverage["evaluations"] += 1
-            if any(s[0] != "ok" for s in states):
-                dist["chains_with_error"] += 1
-            fs = features(case, states)
-            for f in fs:
-                dist["features"][f] = dist["features"].get(f, 0) + 1
-            if fs - {"error"}:
-                nontrivial.add(json.dumps(case, sort_keys=True))
-            if len(samples) < 4 and len(fs) >= 3:
-                samples.append(case)
-            for key, text in problems[:3]:
-                shrunk[key] = shrunk.get(key, 0) + 1
-                small = case
-                if shrunk[key] <= 2:
-                    small = shrink(case, lambda c, key=key: any(k == key for k, _ in check_case(scr, c)[2]))
-                    text = next((t for k, t in check_case(scr, small)[2] if k == key), text)
-                v.failing_input(key, text, dict(fn="chain", case=small))
-            # ---- correspondence with the extracted model
-            if m:
-                rq, tok, supported = model_request(case)
-                if not supported:
-                    dist["unsupported_key"] += 1
-                    continue
-                ms = dec_model_scan(m.ask(rq), tok)
-                for s in ms:
-                    if s[0] == "err":
-                        dist["model_err_codes"][s[1]] = dist["model_err_codes"].get(s[1], 0) + 1
-                mproj = [("ok", dict(s[1])) if s[0] == "ok" else ("err",) for s in ms]
-                iproj = [("ok", dict(s[1])) if s[0] == "ok" else ("err",) for s in states]
-                dv = diverge(mproj, iproj)
-                if dv and dv[0] == "lenient":
-                    # the implementation accepts a row the model rejects: the property does not say
-                    # when an operation must be refused (that is C15), so this is recorded, not reported
-                    dist["impl_accepts_what_model_rejects"] += 1
-                elif dv:
-                    small = case
-                    if len(ctx.disagreements) < 3:
-                        small = shrink(case, lambda c: (lambda p: (diverge(p[0], p[1]) or ("",))[0] == "disagree")(projections(c)))
-                        mproj, iproj, states = projections(small)
-                        dv = diverge(mproj, iproj) or dv
-                    k = dv[1]
-                    ctx.disagree(f"registry after step {k} (ordered ids and row dicts of every registered sheet)",
-                                 small, repr(mproj[k] if k < len(mproj) else None),
-                                 repr(states[k] if k < len(states) else None))
-                if not dv and saved is not None and saved[0] == "ok":
-                    out = parse_sexp(m.ask(model_request(case, fn=2)[0]))
-                    want = {dec_str(nm): [tok[t] for t in ts] for nm, ts in out[1]} if out[0] == 0 else None
-                    got = {nm: sh.get("rows") for nm, sh in saved[1][0].get("sheets", {}).items()}
-                    if want != got:
-                        ctx.disagree("save_data_sheets output vs model data_sheets_to_dict", case, repr(want), repr(got))
+            one(gen_case(rng, malformed), dist, malformed)
+        # ---- histories built around repetition and re-registration
+        for n in range((6000 if thorough else 300) * ctx.scale):
+            one(gen_history(rng), hist)
         # ---- the order word: the model's is_descending against what the implementation does
         if m:
             words = sorted(set(ORDERS + ["DeScEnDiNg", "descendin", "descendingg", "ascending", "d", "dESCENDING"]))
@@ -781,6 +1266,8 @@ def run(ctx):
         v.coverage["evaluations"] += dist["pure_op_cases"]
     finally:
         scr.close()
+    hist.update(HIST_STATS)
+    dist["histories"] = hist
     ctx.stats["c11"] = dist
     v.coverage["distinct_nontrivial"] = len(nontrivial)
     v.coverage["rule"] = (
@@ -791,7 +1278,17 @@ def run(ctx):
         "expression, model mismatch, no sheet name). Every prefix of every chain is run through the real ContentIndexParser "
         "(CSV folder, rpft.converters) and the final index through save_data_sheets; the whole chain goes through the extracted "
         "model. non-trivial = distinct chain showing at least one of: concat with an id shared between sources, a filter that "
-        "keeps some and drops some rows, a sort with tied keys, a descending sort, a derived source, an overwritten name")
+        "keeps some and drops some rows, a sort with tied keys, a descending sort, a derived source, an overwritten name, "
+        "a repeated operation descriptor. HISTORIES: chains of 3..8 rows built around repetition (1..3 recurring (op, expression, "
+        "order) descriptors applied again and again to 1..2 focus names while other rows register something under these names for "
+        "the first time or again: plain / implicit concat without new_name, concat / filter / sort whose new_name is the source or "
+        "another focus name), with rows that are not applied data_sheet rows (ignore_row, draft, template_definition, create_flow), "
+        "a nested content_index or two workbooks each with its own index (decoy copies of sheets in the earlier one); additional "
+        "oracles there: every step equals the same row on a fresh parser that ran only the rows the step depends on (backward "
+        "slice, plain layout), and one parser read as registry / export / parse_all / export / registry row by row. PROCESS "
+        "SESSIONS: 2..4 such workbooks with the same sheet names and operations (new data, same again, other index, failing index) "
+        "parsed one after the other in one process, before anything else runs; a failure is re-run in a fresh interpreter alone "
+        "and as a session to find the workbooks it takes")
     v.coverage["samples"] = samples[:4]
     v.assumptions += [
         "filter/sort expressions are pure and total or raising functions of the row's fields: the harness evaluates them with "
@@ -799,6 +1296,10 @@ def run(ctx):
         "a user models module is supplied (save_data_sheets needs it); inferred models are distinct classes per load",
         "sort keys within one sheet are mutually comparable (ints, bools, strs, int tuples); rendered as integer lists under "
         "the lexicographic order, which is CPython's order inside each of these types",
+        "rows of a content index that are not applied data_sheet rows (ignore_row, draft rows, template_definition, create_flow) and "
+        "the split of an index over a child index or two workbooks are outside Index/DataOps.v: the model is given the data_sheet "
+        "rows in processing order; that the other rows leave the registry alone is checked on the implementation (per-step oracle "
+        "and the plain-layout slice differential)",
         "row-model parsing of CSV cells (int fields, annotated headers) is taken from the generator's expectation "
         "(row_dict) and checked against the implementation on every registered sheet",
     ]
@@ -807,14 +1308,32 @@ def run(ctx):
 def replay(rep):
     import common
     r = rep.get("replay") or {}
-    if r.get("fn") != "chain":
+    if r.get("fn") not in ("chain", "session"):
         return True
     common.use_impl()
     scr = Scratch()
     try:
-        _, _, problems = check_case(scr, r["case"])
+        if r["fn"] == "session":
+            # the workbooks of the session one after the other in this (fresh) process
+            per = session_problems(scr, r["cases"])
+            problems = [(k, f"workbook {i + 1}: {t}") for i, ps in enumerate(per) for k, t in ps]
+        else:
+            _, _, problems = check_case(scr, r["case"])
     finally:
         scr.close()
     for key, text in problems:
         print(f"  {key}: {text}")
     return not problems
+
+
+if __name__ == "__main__":
+    # worker for fresh_process_problems: python c11.py --session file.json
+    import common
+    if len(sys.argv) == 3 and sys.argv[1] == "--session":
+        common.use_impl()
+        _scr = Scratch()
+        try:
+            with open(sys.argv[2]) as _f:
+                print(json.dumps(session_problems(_scr, json.load(_f))))
+        finally:
+            _scr.close()
